@@ -66,14 +66,14 @@ Print Assumptions C09_merge_usage.
 (* the goroutine structure of the source today: one `go` statement in parallelize (batch.go) and
    the one in Timeout (C19); each Batch goroutine writes invokedActions[localIndex] only *)
 Definition audited_go_sites : list str := [
-  B [97;99;116;105;111;110;46;103;111;58;65;99;116;105;111;110;46;84;105;109;101;111;117;116;58;32;103;111];  (* action.go:Action.Timeout: go *)
-  B [97;99;116;105;111;110;46;103;111;58;65;99;116;105;111;110;46;84;105;109;101;111;117;116;58;32;109;97;107;101;40;99;104;97;110;32;115;116;114;105;110;103;44;32;49;41];  (* action.go:Action.Timeout: make(chan string, 1) *)
-  B [97;99;116;105;111;110;46;103;111;58;65;99;116;105;111;110;46;84;105;109;101;111;117;116;58;32;114;101;99;118;32;99;117;114;114;101;110;116;67;104;97;110;110;101;108];  (* action.go:Action.Timeout: recv currentChannel *)
-  B [97;99;116;105;111;110;46;103;111;58;65;99;116;105;111;110;46;84;105;109;101;111;117;116;58;32;114;101;99;118;32;116;105;109;101;46;65;102;116;101;114;40;100;41];  (* action.go:Action.Timeout: recv time.After(d) *)
-  B [97;99;116;105;111;110;46;103;111;58;65;99;116;105;111;110;46;84;105;109;101;111;117;116;58;32;115;101;108;101;99;116];  (* action.go:Action.Timeout: select *)
-  B [97;99;116;105;111;110;46;103;111;58;65;99;116;105;111;110;46;84;105;109;101;111;117;116;58;32;115;101;110;100;32;99;117;114;114;101;110;116;67;104;97;110;110;101;108];  (* action.go:Action.Timeout: send currentChannel *)
-  B [97;99;116;105;111;110;46;103;111;58;65;99;116;105;111;110;46;84;105;109;101;111;117;116;58;32;116;105;109;101;46;65;102;116;101;114];  (* action.go:Action.Timeout: time.After *)
-  B [98;97;116;99;104;46;103;111;58;112;97;114;97;108;108;101;108;105;122;101;58;32;103;111]   (* batch.go:parallelize: go *)
+  B [97;99;116;105;111;110;46;103;111;58;65;99;116;105;111;110;46;84;105;109;101;111;117;116;47;49;58;32;103;111];  (* action.go:Action.Timeout/1: go *)
+  B [97;99;116;105;111;110;46;103;111;58;65;99;116;105;111;110;46;84;105;109;101;111;117;116;47;49;58;32;109;97;107;101;40;99;104;97;110;32;115;116;114;105;110;103;44;32;49;41];  (* action.go:Action.Timeout/1: make(chan string, 1) *)
+  B [97;99;116;105;111;110;46;103;111;58;65;99;116;105;111;110;46;84;105;109;101;111;117;116;47;49;58;32;114;101;99;118;32;99;117;114;114;101;110;116;67;104;97;110;110;101;108];  (* action.go:Action.Timeout/1: recv currentChannel *)
+  B [97;99;116;105;111;110;46;103;111;58;65;99;116;105;111;110;46;84;105;109;101;111;117;116;47;49;58;32;114;101;99;118;32;116;105;109;101;46;65;102;116;101;114;40;100;41];  (* action.go:Action.Timeout/1: recv time.After(d) *)
+  B [97;99;116;105;111;110;46;103;111;58;65;99;116;105;111;110;46;84;105;109;101;111;117;116;47;49;58;32;115;101;108;101;99;116];  (* action.go:Action.Timeout/1: select *)
+  B [97;99;116;105;111;110;46;103;111;58;65;99;116;105;111;110;46;84;105;109;101;111;117;116;47;49;58;32;116;105;109;101;46;65;102;116;101;114];  (* action.go:Action.Timeout/1: time.After *)
+  B [97;99;116;105;111;110;46;103;111;58;65;99;116;105;111;110;46;84;105;109;101;111;117;116;47;50;58;32;115;101;110;100;32;99;117;114;114;101;110;116;67;104;97;110;110;101;108];  (* action.go:Action.Timeout/2: send currentChannel *)
+  B [98;97;116;99;104;46;103;111;58;112;97;114;97;108;108;101;108;105;122;101;47;48;58;32;103;111]   (* batch.go:parallelize/0: go *)
 ].
 Theorem C09_goroutine_sites :
   forallb (fun s => Model.Action.in_strs s audited_go_sites) go_stmt_sites = true.
